@@ -267,6 +267,23 @@ def execute(case):
                 w1[0] = w1[0].copy()
                 w1[0][:, 0] = 0.7 * st_[:, 0] - 1.3 * st_[:, 1]
                 break
+    # special first seeds: a unit vector (zero on everything but the LAST entry of the first output), or a copy of the
+    # state of an input of the same shape (compliance-like: the seed of a solution is the load itself)
+    w1kind = case.get('w1', 'generic')
+    if w1kind != 'generic':
+        y_ = y0[0]
+        if not isinstance(y_, np.ndarray) or y_.ndim == 0 or y_.size < 2:
+            return {'skipped': f'first output is not an array with at least two entries (w1={w1kind})'}
+        if w1kind == 'basis':
+            e_ = np.zeros_like(w1[0])
+            e_.flat[-1] = 1.0
+            w1[0] = e_
+        else:
+            src = [s_.state for s_ in sin if isinstance(s_.state, np.ndarray) and s_.state.shape == y_.shape
+                   and (np.iscomplexobj(y_) or not np.iscomplexobj(s_.state))]
+            if not src:
+                return {'skipped': 'no input with the shape of the first output (w1=input)'}
+            w1[0] = np.array(src[0], dtype=w1[0].dtype, copy=True)
     cplx_out = any(np.iscomplexobj(y.data if sps.issparse(y) else y) for y in y0)
     ab = COMBOS[case.get('combo', 0) % len(COMBOS)]
     # (a, b) are real: sensitivities are real-linear in the seed (Wirtinger convention), not complex-linear
@@ -337,6 +354,10 @@ def generate(tier, seed):
     yield {'__level__': 'L3/reduced'}
     for i, d in enumerate(red):
         yield {'desc': d, 'table': t, 'L': 3, 'combo': i}
+    yield {'__level__': 'L2/reduced, first seed a unit vector / a copy of an input state'}
+    for w1 in ('basis', 'input'):
+        for i, d in enumerate(red):
+            yield {'desc': d, 'table': t, 'L': 2, 'combo': i, 'w1': w1}
     yield {'__level__': 'L4/user-defined modules returning their seed'}
     for i, nm in enumerate(USER_MODULES):
         yield {'desc': {'fam': 'user', 'name': nm}, 'table': t, 'L': 4 if tier == 'quick' else 5, 'combo': i}
